@@ -139,7 +139,7 @@ Lemma add_depth_fixed_shape (ra rb : list pt) xa ya xb yb :
                                         + integ (Qmin xa xb) 0 (pos_to_slope b) t.
 Proof.
   intros a b Ia Ib.
-  unfold add_depth, sum_slopes. change (ystart Fixed a b) with (first_ordinate a b). set (ys := first_ordinate a b).
+  change (add_depth Fixed a b) with (add_depth_core Fixed a b). unfold add_depth_core, sum_slopes. change (ystart Fixed a b) with (first_ordinate a b). set (ys := first_ordinate a b).
   set (pa := pos_to_slope a). set (pb := pos_to_slope b).
   destruct (merge_some (length pa + length pb) pa pb 0 0 (le_n _)) as [s E]. rewrite E. simpl option_map.
   exists (slope_to_pos ys s). split; [reflexivity|].
@@ -426,7 +426,7 @@ Proof.
   vm_compute. reflexivity.
 Qed.
 
-(* OUTSIDE the theorems: an empty depth.  The model evaluates ([] + b = b shifted to first ordinate 0), the real code
-   raises IndexError (a[0][0] in union_crit_pairs; before 5fc4f85 l[-1][0] in pos_to_slope_interp). *)
-Lemma add_empty_depth_model : add_depth Fixed [] [(0, 1); (1, 0)] = Some [(0, 0); (1, 0 + (1 - 0) * (0 + (0 - 1) / (1 - 0)))].
-Proof. vm_compute. reflexivity. Qed.
+(* An explicitly empty depth (only constructible through critical_pairs=[[]...]): the real code raises IndexError
+   (a[0][0] in union_crit_pairs; before 5fc4f85 l[-1][0] in pos_to_slope_interp); the model returns its error value. *)
+Lemma add_empty_depth_raises v b : add_depth v [] b = None /\ add_depth v b [] = None.
+Proof. split; [reflexivity|destruct b; reflexivity]. Qed.
